@@ -1037,7 +1037,7 @@ def run_periodic(case):
 # 7. histories: several calls on ONE DMRG object, every clause after every call
 # ---------------------------------------------------------------------------
 
-HSEQ = [None, "R", "L", "RL", "LR", "RRL"]
+HSEQ = [None, "R", "L", "RL", "RL", "LR", "LR", "RRL"]  # alternating sequences are where carried-over gauge state matters
 
 
 @st.composite
@@ -1065,8 +1065,9 @@ def s_case_history(draw, tier):
     calls = []
     for k in range(draw(st.integers(2, 4))):
         if draw(st.sampled_from([True, True, False])):
-            c = {"op": "solve", "tol_rel": draw(st.sampled_from([1e-4, 1e-6, 1e-9, 0.0])),
-                 "max_sweeps": draw(st.integers(1, 4 if quick else 6)), "sweep_sequence": draw(st.sampled_from(HSEQ))}
+            # a loose tol with a generous max_sweeps ends by convergence, tol 0.0 / one sweep by exhaustion
+            c = {"op": "solve", "tol_rel": draw(st.sampled_from([1e-2, 1e-4, 1e-4, 1e-6, 1e-9, 0.0])),
+                 "max_sweeps": draw(st.sampled_from([1, 2, 3, 4, 6, 6])), "sweep_sequence": draw(st.sampled_from(HSEQ))}
             if k > 0 and one_in(draw, 4):
                 if untrunc:
                     c["bond_dims"] = draw(st.sampled_from([full + 1, full + 3]))
@@ -1233,7 +1234,7 @@ SUBCHECKS = [
                   "bonds for one-site, inner tol <= 1e-10), converged at 1e-9: d^L < 45 (all local solves numpy.eigh): |E-lambda|<=1e-6||H|| and "
                   "ground-space weight >= 1-1e-6 (gap above the ground space >= 1e-3||H||); larger (Lanczos): ||H psi - E psi|| <= 1e-6||H||, and "
                   "the full claim unless trapped in an excited eigenstate; nt as RULE and converged and not trapped"),
-    SubCheck("history", run_history, s_case_history, examples=(60, 300), shards=(2, 4),
+    SubCheck("history", run_history, s_case_history, examples=(150, 400), shards=(2, 4),
              rule="2-4 calls on ONE DMRG object (solve with tol / max_sweeps / sweep_sequence / bond_dims / cutoffs overrides, manual "
                   "sweep_right / sweep_left with canonize False only after an opposite sweep), DMRG1 and DMRG2, 40% complex; after EVERY call: "
                   "clause 1 (dense + apply), every newly recorded total energy inside the spectrum, cap, no increase across untruncated updates "
